@@ -94,6 +94,7 @@ type method struct {
 	ok                               bool
 	why                              string
 	argText                          [][2]string
+	skeleton                         []string // bodySkeleton: the statements of the body, in order
 }
 
 func parseMethod(fd *ast.FuncDecl) method {
@@ -158,7 +159,39 @@ func parseMethod(fd *ast.FuncDecl) method {
 		return true
 	})
 	m.ok = m.call != "" && m.reqType != ""
+	m.skeleton = bodySkeleton(fd)
 	return m
+}
+
+// skeletonTerm renders a body skeleton as a Lean `List BodyStmt` term.
+func skeletonTerm(sk []string) string {
+	var out []string
+	for _, k := range sk {
+		switch k {
+		case "call":
+			out = append(out, ".call")
+		case "iferr":
+			out = append(out, ".ifErr")
+		case "assert":
+			out = append(out, ".assert")
+		case "ifnotok-panic":
+			out = append(out, ".ifNotOkPanic")
+		case "ret":
+			out = append(out, ".ret")
+		case "ret-assert":
+			out = append(out, ".retAssert")
+		default:
+			// free text of the source may follow "other:"; keep the report line splittable on blanks and commas
+			k = strings.Map(func(r rune) rune {
+				if r == ' ' || r == ',' || r == ';' || r == '\t' || r == '\n' || r == '=' {
+					return '_'
+				}
+				return r
+			}, strings.TrimPrefix(k, "other:"))
+			out = append(out, "(.other "+q(k)+")")
+		}
+	}
+	return "[" + strings.Join(out, ", ") + "]"
 }
 
 type wrapper struct {
@@ -190,10 +223,9 @@ func main() {
 						}
 					}
 					if strings.HasSuffix(rt, "Client") && x.Body != nil {
-						m := parseMethod(x)
-						if m.ok {
-							methods = append(methods, m)
-						}
+						// every method of the client in these two files is a row: one without a request call
+						// (call "", request type "") fails its obligation instead of dropping out of the table
+						methods = append(methods, parseMethod(x))
 						continue
 					}
 					if special && x.Body != nil && (x.Name.Name == "CRC" || x.Name.Name == "FlagIndex") {
@@ -278,8 +310,15 @@ func main() {
 			if id == "" {
 				id = "0"
 			}
-			fmt.Fprintf(&b, "  ⟨%s, %s, %s, %v, [%s], [%s], %s, %s, %s, %s⟩%s\n", q(m.name), q("telegram."+m.reqType), id, m.passThrough,
-				strings.Join(args, ", "), strings.Join(asg, ", "), q(m.call), hint, m.asserted, m.retType, sep)
+			asserted, retType := m.asserted, m.retType
+			if asserted == "" {
+				asserted = "(.other \"\")"
+			}
+			if retType == "" {
+				retType = "(.other \"-\")"
+			}
+			fmt.Fprintf(&b, "  ⟨%s, %s, %s, %v, [%s], [%s], %s, %s, %s, %s, %s⟩%s\n", q(m.name), q("telegram."+m.reqType), id, m.passThrough,
+				strings.Join(args, ", "), strings.Join(asg, ", "), q(m.call), hint, asserted, retType, skeletonTerm(m.skeleton), sep)
 		}
 		b.WriteString("]\n\n")
 		n++
